@@ -206,7 +206,7 @@ def run(tier, replay=None):
         for av in itertools.product(alphabet, repeat=ln):
             jobs.append(("argv: %r" % (av,), "argv", "argv", None, list(av)))
 
-    def one(item):
+    def one(item, limit=20):
         idx, (label, opclass, kind, payload, av) = item
         d = os.path.join(cases_dir, "c%d" % idx)
         os.makedirs(d)
@@ -218,7 +218,7 @@ def run(tier, replay=None):
             elif kind == "res":
                 open(os.path.join(d, "in.xml"), "w").write(payload)
                 cmd = ["prlimit", "--as=1500000000", repo.sbeppc("dbg"), "--output-dir", out, "in.xml"]
-                rc, txt = cxx.sh(cmd, timeout=300, cwd=d)
+                rc, txt = cxx.sh(cmd, timeout=15 * limit, cwd=d)
                 res = classify(rc, txt, out)
                 if res and res[0] == "files-left-after-rejection" and "std::bad_alloc" in txt and "length=4294967295" in label:
                     res = ("files-left-after-out-of-memory:char-constant-length-4294967295", res[1])
@@ -234,7 +234,7 @@ def run(tier, replay=None):
                 out = d   # whatever it writes lands in the case directory
             env = dict(os.environ)
             env.update(repo.SAN_ENV)
-            rc, txt = cxx.sh(cmd, timeout=20, cwd=d, env=env)
+            rc, txt = cxx.sh(cmd, timeout=limit, cwd=d, env=env)
             if kind == "argv":
                 # leftovers: anything besides the two inputs after a rejection
                 bad = None
@@ -251,7 +251,17 @@ def run(tier, replay=None):
 
     outcomes = {}
     accepted = rejected = 0
-    for label, opclass, rc, res, tail in cxx.pmap(one, list(enumerate(jobs))):
+    results = list(cxx.pmap(one, list(enumerate(jobs))))
+    # a run that did not exit within the limit while 16 workers (and whatever else) load the machine is re-run alone with
+    # a 15x limit before it is called a hang; only the second verdict counts
+    slow = [i for i, r in enumerate(results) if r[3] is not None and r[3][0] == "timeout"]
+    for i in slow[:40]:
+        shutil.rmtree(os.path.join(cases_dir, "c%d" % i), ignore_errors=True)
+        results[i] = one((i, jobs[i]), limit=300)
+    if slow:
+        rep.assume("%d run(s) exceeded the 20 s limit in the parallel sweep and were re-run alone with a 300 s limit; %d still did not exit"
+                   % (len(slow), sum(1 for i in slow if results[i][3] is not None and results[i][3][0] == "timeout")))
+    for label, opclass, rc, res, tail in results:
         outcomes[(opclass.split(":")[0], "ok" if res is None else res[0].split(":")[0])] = outcomes.get((opclass.split(":")[0], "ok" if res is None else res[0].split(":")[0]), 0) + 1
         if res is None:
             if rc == 0:
